@@ -31,6 +31,8 @@ func runC02(p *load.Program, r *oblig.Report) {
 	c02MessageReader(p, r)
 	c02Reader(p, r)
 	c02LastOffsetSentinel(p, r)
+	c02HeaderReset(p, r)
+	c02LookupTopic(p, r)
 	varintAcrossRefills(p, r, "C02.R6 message set accounting and skipping")
 }
 
@@ -925,4 +927,59 @@ func c02LastOffsetSentinel(p *load.Program, r *oblig.Report) {
 	}
 	r.Check(n > 0 && len(bad) == 0, rule, "every Batch that reads a message set starts with lastOffset at the sentinel", "-",
 		fmt.Sprintf("Batch{msgs: …, lastOffset: %d}", sentinel), strings.Join(bad, "; "))
+}
+
+// c02HeaderReset: every message or batch header is decoded into a zeroed header: format 0 has no timestamp field, so a
+// header left over from the previous message would lend it that message's timestamp.
+func c02HeaderReset(p *load.Program, r *oblig.Report) {
+	const rule = "C02.R6 message set accounting and skipping"
+	fn := p.Func("", "(*messageSetReader).readHeader")
+	if fn == nil {
+		r.Lost(rule, "kafka.(*messageSetReader).readHeader")
+		return
+	}
+	var reset ssa.Instruction
+	var firstRead ssa.Instruction
+	an.EachInstr(fn, func(ins ssa.Instruction) {
+		if st, ok := fieldStoreIs(ins, "readerStack", "header"); ok && reset == nil {
+			reset = st
+		}
+		if c, ok := ins.(*ssa.Call); ok && firstRead == nil && c.Call.StaticCallee() != nil && strings.HasPrefix(an.RefFuncName(c.Call.StaticCallee()), "readInt") {
+			firstRead = c
+		}
+	})
+	ok := reset != nil && firstRead != nil && an.Dominates(reset, firstRead)
+	r.Check(ok, rule, "kafka.(*messageSetReader).readHeader starts every header from the zero value", p.Pos(fn.Pos()), "r.header = messagesHeader{} before the first field is read", "no reset dominates the first read")
+}
+
+// c02LookupTopic: the partition a Reader is bound to is looked up among the partitions of the requested topic: the
+// selection compares partition ids only, so the listing must not contain other topics.
+func c02LookupTopic(p *load.Program, r *oblig.Report) {
+	const rule = "C02.R4 reader.initialize positions the new connection"
+	fn := p.Func("", "(*Dialer).LookupPartition")
+	if fn == nil {
+		r.Lost(rule, "kafka.(*Dialer).LookupPartition")
+		return
+	}
+	var topicParam *ssa.Parameter
+	for _, prm := range fn.Params {
+		if an.ParamName(prm) == "topic" {
+			topicParam = prm
+		}
+	}
+	ok, found := false, "ReadPartitions call not found"
+	an.EachInstrDeep(fn, func(_ *ssa.Function, ins ssa.Instruction) {
+		c, isC := ins.(*ssa.Call)
+		if !isC || !calleeNamed(&c.Call, "Conn", "ReadPartitions") {
+			return
+		}
+		args := an.VarArgs(c.Call.Args[len(c.Call.Args)-1])
+		var shapes []string
+		for _, a := range args {
+			shapes = append(shapes, clean(an.Shape(a)))
+		}
+		found = "ReadPartitions(" + strings.Join(shapes, ", ") + ")"
+		ok = len(args) == 1 && topicParam != nil && strings.HasSuffix(shapes[0], "topic")
+	})
+	r.Check(ok, rule, "kafka.(*Dialer).LookupPartition lists the partitions of the requested topic only", p.Pos(fn.Pos()), "c.ReadPartitions(topic)", found)
 }
